@@ -13,8 +13,13 @@ import (
 	"encoding/json"
 	"errors"
 	"fmt"
+	"os"
 	"reflect"
+	"runtime/debug"
+	"strings"
+	"time"
 	"sync"
+	"sync/atomic"
 	"testing"
 
 	"github.com/NethermindEth/juno/core"
@@ -39,6 +44,7 @@ type action struct {
 	Kinds []string `json:"kinds"`
 	Evs   []int    `json:"evs"`
 	Revs  []bool   `json:"revs"`
+	Graceful bool  `json:"graceful"` // Restart
 }
 
 type id = []json.RawMessage // ["tx",n,i] | ["notfound"] | ["error"] | ...
@@ -236,6 +242,15 @@ type stored struct {
 
 var versions = []string{"0.13.2", "0.13.4", "0.14.0", "0.14.1"}
 
+func maxFelt() *felt.Felt { return new(felt.Felt).Sub(new(felt.Felt), felt.NewFromUint64[felt.Felt](1)) } // p-1
+
+func timestamp(idx, number int) uint64 {
+	if (idx+number)%5 == 0 {
+		return ^uint64(0) - uint64(number)
+	}
+	return uint64(1_700_000_000 + number)
+}
+
 // l1Handler builds the three nonce variants of an L1 handler transaction: with a nonce (chainkit),
 // with a ZERO nonce (a value, hashed like any other), and the legacy form with NO nonce (mainnet
 // block 192 …): core.TransactionHash returns the transaction's own hash for it and
@@ -305,14 +320,40 @@ func concretise(g *chainkit.Gen, n *chainkit.Node, a action, number, idx int, co
 	var rcs []*core.TransactionReceipt
 	for i := 0; i < a.Size; i++ {
 		var tx core.Transaction
-		if a.Kinds[i] == "l1handler" {
-			tx = l1Handler(g, idx+number+i) // derived from the position: replays reproduce the variant
-		} else {
+		pos := idx + number + i // every variant below derives from the position: replays reproduce it
+		switch {
+		case a.Kinds[i] == "l1handler":
+			tx = l1Handler(g, pos)
+		case a.Kinds[i] == "declare1" && pos%4 == 0: // the legacy version-0 declare: no nonce, its own hash
+			tx = &core.DeclareTransaction{Version: new(core.TransactionVersion), ClassHash: g.Felt(), SenderAddress: g.Felt(),
+				MaxFee: g.Felt(), TransactionSignature: g.Felts(2), TransactionHash: g.Felt()}
+		default:
 			tx = g.Tx(a.Kinds[i])
+		}
+		// lengths around the CBOR / varint header boundaries, and extreme values
+		boundary := []int{0, 1, 23, 24, 255, 256}[pos%6]
+		extreme := (idx+number)%5 == 0
+		if inv, ok := tx.(*core.InvokeTransaction); ok {
+			inv.CallData = g.Felts(boundary)
+			if extreme && inv.Version.Is(3) {
+				inv.Tip = ^uint64(0)
+				inv.ResourceBounds[core.ResourceL1Gas] = core.ResourceBounds{MaxAmount: ^uint64(0), MaxPricePerUnit: maxFelt()}
+			}
+			h, err := core.TransactionHash(inv, chainkit.Network)
+			if err != nil {
+				return nil, err
+			}
+			chainkit.SetTxHash(inv, &h)
 		}
 		var evs []*core.Event
 		for e := 0; e < a.Evs[i]; e++ {
 			evs = append(evs, &core.Event{From: g.Felt(), Keys: g.Felts(g.R.Intn(3)), Data: g.Felts(g.R.Intn(3))})
+		}
+		if len(evs) > 0 {
+			evs[0].Data = g.Felts([]int{0, 23, 24, 255, 256, 1}[pos%6])
+		}
+		if len(evs) > 1 && pos%2 == 0 {
+			evs[1] = evs[0] // two equal events in a row (and the very same object)
 		}
 		if large && i == 0 { // calldata and one event payload of largeN felts
 			inv := tx.(*core.InvokeTransaction)
@@ -326,8 +367,20 @@ func concretise(g *chainkit.Gen, n *chainkit.Node, a action, number, idx int, co
 		}
 		r := g.Receipt(tx, evs)
 		r.Reverted, r.RevertReason = a.Revs[i], ""
-		if r.Reverted {
-			r.RevertReason = fmt.Sprintf("reverted: entry point %d not found – \"quoted\"\n", g.R.Intn(100))
+		if r.Reverted { // reverted with an EMPTY reason is a value too; lengths around the string header boundaries
+			reason := fmt.Sprintf("reverted: entry point %d not found – \"quoted\"\n", g.R.Intn(100))
+			switch n := []int{-1, 0, 23, 24, 255, 256, 65536}[pos%7]; {
+			case n == 0:
+				reason = ""
+			case n > 0:
+				reason = strings.Repeat("x", n)
+			}
+			r.RevertReason = reason
+		}
+		if extreme {
+			r.Fee = maxFelt()
+			r.ExecutionResources.Steps = ^uint64(0)
+			r.ExecutionResources.TotalGasConsumed = &core.GasConsumed{L1Gas: ^uint64(0), L1DataGas: ^uint64(0), L2Gas: ^uint64(0)}
 		}
 		r.L2ToL1Message = []*core.L2ToL1Message{}
 		for m := (i*7 + number) % 4; m > 0; m-- {
@@ -368,7 +421,7 @@ func concretise(g *chainkit.Gen, n *chainkit.Node, a action, number, idx int, co
 		rcs = append(rcs, r)
 	}
 	b, err := n.Build(chainkit.BlockSpec{Version: st.version, Diff: d, Classes: classes, Txs: txs, Receipts: rcs,
-		Timestamp: uint64(1_700_000_000 + number), Sequencer: g.Felt(), L1DAMode: core.L1DAMode(g.R.Intn(2))})
+		Timestamp: timestamp(idx, number), Sequencer: g.Felt(), L1DAMode: core.L1DAMode(g.R.Intn(2))})
 	if err != nil {
 		return nil, err
 	}
@@ -388,7 +441,18 @@ type kept struct {
 	decode func([]byte) error
 }
 
+// retained: a value an accessor handed back, and what it has to equal. Values are re-checked at the
+// end of the behaviour: later reads, later Stores and a restart must not have changed them (results
+// must not alias buffers, caches or each other).
+type retained struct {
+	name string
+	got  any
+	want any
+}
+
 type sweeper struct {
+	retain   bool
+	retained []retained
 	kept    []kept
 	out     *vh.Result
 	backend string
@@ -413,6 +477,9 @@ func (s *sweeper) check(name string, wantKind string, want any, got any, err err
 	if k != wantKind {
 		s.bad(name, "kind", fmt.Sprintf("specification says %s, juno %s (%v)", wantKind, k, err), wantKind, fmt.Sprintf("%s: %v", k, err))
 		return
+	}
+	if k == "found" && s.retain && got != nil {
+		s.retained = append(s.retained, retained{name, got, want})
 	}
 	if k == "found" && !equal(want, got) {
 		what := "value"
@@ -733,6 +800,52 @@ func keep[T any](s *sweeper, name string, v T, enc []byte) {
 	}})
 }
 
+func (s *sweeper) checkRetained() {
+	for _, r := range s.retained {
+		s.n++
+		if !equal(r.want, r.got) {
+			s.bad(r.name, "retained-result-changed", "a value returned earlier changed after later calls", dump(r.want), dump(r.got))
+		}
+	}
+	s.retained = nil
+}
+
+const hangAfter = 120 * time.Second
+
+// guardStep runs one step of calls into juno under recover and a deadline; a panic or a hang of the
+// real code becomes a keyed divergence (the engine never dies of it). false = stop this behaviour.
+func (s *sweeper) guardStep(what string, f func() bool) (ok bool) {
+	timer := time.AfterFunc(hangAfter, func() {
+		s.bad("hang", what, fmt.Sprintf("no return after %s", hangAfter), "returns", "hang")
+		_ = s.out.Write()
+		os.Exit(1)
+	})
+	defer timer.Stop()
+	defer func() {
+		if r := recover(); r != nil {
+			if msg, isStr := r.(string); isStr && strings.HasPrefix(msg, "harness:") {
+				panic(r) // machinery, not the code under test
+			}
+			var frames []string
+			for _, l := range strings.Split(string(debug.Stack()), "\n") {
+				if strings.Contains(l, "NethermindEth/juno") && !strings.HasPrefix(l, "\t") {
+					frames = append(frames, strings.TrimSpace(l))
+				}
+			}
+			where := "?"
+			if len(frames) > 0 {
+				where = frames[0]
+				if i := strings.Index(where, "("); i > 0 {
+					where = where[:i]
+				}
+			}
+			s.bad("crash", where, fmt.Sprintf("%s: juno panicked: %v", what, r), "returns", strings.Join(frames, " <- "))
+			ok = false
+		}
+	}()
+	return f()
+}
+
 // checkKept: after further values went through the same serializers, every retained encoding must
 // be byte-for-byte what it was and still decode to its value.
 func (s *sweeper) checkKept() {
@@ -903,53 +1016,84 @@ func TestAccessorsReplay(t *testing.T) {
 				sw.backend += "+large"
 			}
 			var contracts []felt.Felt
+			stepOK := true
 			for i, stp := range beh {
+				if !stepOK {
+					break
+				}
 				steps++
 				sw.step = i
-				st, err := concretise(g, node, stp.A, i, idx, &contracts, large)
-				if err != nil {
-					t.Fatalf("behaviour %d step %d: build: %v", idx, i, err)
-				}
-				if err := node.StoreBuilt(st.b); err != nil {
-					t.Fatalf("behaviour %d step %d: store: %v", idx, i, err)
-				}
-				sw.chain = append(sw.chain, st)
-				if len(st.b.Block.Transactions) > 0 && len(writersPool) < 16 && backend == backends[0] && !large {
-					writersPool = append(writersPool, st)
-				}
-				for j, k := range stp.A.Kinds {
-					shapes[fmt.Sprintf("%s/ev%d/rev%v", k, stp.A.Evs[j], stp.A.Revs[j])] = true
-				}
-				shapes[fmt.Sprintf("size%d/%s", stp.A.Size, st.version)] = true
-				if backend == backends[0] {
-					sw.codecs(st)
-				}
-				if h, err := node.BC.Height(); err != nil || int(h) != stp.View.Height {
-					sw.bad("Height", "value", "height", stp.View.Height, fmt.Sprint(h, err))
-				}
-				if len(stp.View.Blocks) != len(sw.chain) {
-					t.Fatalf("behaviour %d step %d: view has %d blocks, chain %d", idx, i, len(stp.View.Blocks), len(sw.chain))
-				}
-				head, err := node.BC.Head()
-				sw.check("Head", "found", st.b.Block, head, err)
-				hh, err := node.BC.HeadsHeader()
-				sw.check("HeadsHeader", "found", st.b.Block.Header, hh, err)
-				for _, bv := range stp.View.Blocks {
-					sw.sweepBlock(bv)
-				}
-				sw.sweepBlock(stp.View.Beyond)
-				sw.scan()
+				// one step = calls into juno only: a panic or a hang there is a verdict about the code
+				stepOK = sw.guardStep(fmt.Sprintf("%s@%d", stp.A.Name, len(sw.chain)), func() bool {
+					if stp.A.Name == "Restart" {
+						if stp.A.Graceful {
+							if err := node.BC.WriteRunningEventFilter(); err != nil {
+								sw.bad("Restart", "graceful-stop-failed", err.Error(), "ok", err)
+								return false
+							}
+						}
+						node = node.Restart()
+						sw.bc = node
+					} else {
+						st, err := concretise(g, node, stp.A, len(sw.chain), idx, &contracts, large)
+						if err != nil {
+							// the real Simulate refuses a block the specification allows
+							sw.bad("Store", "producer-failed", fmt.Sprintf("cannot build block %d: %v", len(sw.chain), err), "built", err)
+							return false
+						}
+						if err := node.StoreBuilt(st.b); err != nil {
+							sw.bad("Store", "store-failed", fmt.Sprintf("a valid block %d is refused: %v", len(sw.chain), err), "stored", err)
+							return false
+						}
+						sw.chain = append(sw.chain, st)
+						if len(st.b.Block.Transactions) > 0 && len(writersPool) < 16 && backend == backends[0] && !large {
+							writersPool = append(writersPool, st)
+						}
+						for j, k := range stp.A.Kinds {
+							shapes[fmt.Sprintf("%s/ev%d/rev%v", k, stp.A.Evs[j], stp.A.Revs[j])] = true
+						}
+						shapes[fmt.Sprintf("size%d/%s", stp.A.Size, st.version)] = true
+						if backend == backends[0] {
+							sw.codecs(st)
+						}
+					}
+					last := sw.chain[len(sw.chain)-1]
+					if h, err := node.BC.Height(); err != nil || int(h) != stp.View.Height {
+						sw.bad("Height", "value", "height", stp.View.Height, fmt.Sprint(h, err))
+					}
+					if len(stp.View.Blocks) != len(sw.chain) {
+						panic(fmt.Sprintf("harness: behaviour %d step %d: view has %d blocks, chain %d", idx, i, len(stp.View.Blocks), len(sw.chain)))
+					}
+					head, err := node.BC.Head()
+					sw.check("Head", "found", last.b.Block, head, err)
+					hh, err := node.BC.HeadsHeader()
+					sw.check("HeadsHeader", "found", last.b.Block.Header, hh, err)
+					for _, bv := range stp.View.Blocks {
+						// results of the newest block's first sweep are retained and re-checked at the end
+						sw.retain = stp.A.Name == "Store" && bv.N == len(sw.chain)-1
+						sw.sweepBlock(bv)
+					}
+					sw.retain = false
+					sw.sweepBlock(stp.View.Beyond)
+					sw.scan()
+					return true
+				})
 			}
 			sw.checkKept() // all four blocks of the chain went through the serializers by now
 			// a restarted node answers the same (nothing lives only in memory)
-			if len(beh) > 0 {
-				sw.bc = node.Restart()
-				sw.backend = backend + "+restart"
-				last := beh[len(beh)-1]
-				for _, bv := range last.View.Blocks {
-					sw.sweepBlock(bv)
-				}
+			if len(beh) > 0 && stepOK {
+				sw.guardStep("final-restart", func() bool {
+					node = node.Restart()
+					sw.bc = node
+					sw.backend += "+restart"
+					last := beh[len(beh)-1]
+					for _, bv := range last.View.Blocks {
+						sw.sweepBlock(bv)
+					}
+					return true
+				})
 			}
+			sw.checkRetained() // every value an accessor handed back is still what it was
 			calls += sw.n
 			if c, ok := store.(interface{ Close() error }); ok {
 				_ = c.Close()
@@ -996,6 +1140,9 @@ func TestAccessorsReplay(t *testing.T) {
 			t.Fatal("no behaviour usable for the large-values chain")
 		}
 		out.Stats["large_value_chains"] = done
+	}
+	if in.Concurrent {
+		calls += concurrentReaders(out, seed, vh.J{"seed": seed, "start": in.Start, "behaviours": [][]step{}, "backends": in.Backends[:1], "concurrent": true})
 	}
 	if in.Concurrent && len(writersPool) > 1 {
 		n := 3
@@ -1059,4 +1206,147 @@ func concurrentWriters(out *vh.Result, pool []*stored, replay any) int {
 		}
 	}
 	return n
+}
+
+// concurrentReaders: RPC handlers read while the sync pipeline stores. Store writes a block's header,
+// transactions, receipts, state update, commitments, indexes and the chain height in ONE batch, so
+// the specification's invariants (ItemAccessors / BlockAccessors of BlockBlob.tla) hold at every
+// instant a reader can observe: whatever height a reader sees, every block up to it is completely
+// readable and equal to what was stored. Readers run for the writer's whole lifetime, each under
+// recover; the writer stores 12 blocks of 3 transactions.
+func concurrentReaders(out *vh.Result, seed int64, replay any) int {
+	var mu sync.Mutex
+	total := 0
+	for ci, cfg := range []struct {
+		backend  string
+		newState bool
+	}{{"memory", false}, {"pebblev2", true}} {
+		report := func(name, what, msg string) {
+			mu.Lock()
+			defer mu.Unlock()
+			out.Diverge(vh.Divergence{Key: fmt.Sprintf("accessor:concurrent-read:%s:%s", name, what),
+				What: fmt.Sprintf("[%s newState=%v] while blocks are being stored: %s", cfg.backend, cfg.newState, msg), Input: replay})
+		}
+		g := chainkit.NewGen(seed*104729 + int64(ci))
+		twin := chainkit.NewNode(nil, cfg.newState)
+		var built []*stored
+		var contracts []felt.Felt
+		for n := 0; n < 12; n++ {
+			a := action{Name: "Store", Size: 3, Evs: []int{2, 0, 1}, Revs: []bool{false, true, false}}
+			for i := 0; i < 3; i++ {
+				a.Kinds = append(a.Kinds, chainkit.TxKinds[(n*3+i)%len(chainkit.TxKinds)])
+			}
+			st, err := concretise(g, twin, a, n, ci*3, &contracts, false)
+			if err == nil {
+				err = twin.StoreBuilt(st.b)
+			}
+			if err != nil {
+				report("Store", "producer-failed", err.Error())
+				return total
+			}
+			built = append(built, st)
+		}
+		store, err := openStore(cfg.backend)
+		if err != nil {
+			panic(err)
+		}
+		node := chainkit.NewNode(store, cfg.newState)
+		var stop atomic.Bool
+		var wg sync.WaitGroup
+		var reads atomic.Int64
+		for r := 0; r < 4; r++ {
+			wg.Add(1)
+			go func(r int) {
+				defer wg.Done()
+				defer func() {
+					if p := recover(); p != nil {
+						report("crash", "reader", fmt.Sprintf("reader panicked: %v\n%s", p, debug.Stack()))
+					}
+				}()
+				bc := node.BC
+				for pass := 0; ; pass++ {
+					final := stop.Load() // the pass after the writer finished sees the whole chain
+					h, err := bc.Height()
+					if err != nil {
+						if !errors.Is(err, db.ErrKeyNotFound) {
+							report("Height", "kind", err.Error())
+							return
+						}
+					} else {
+						for _, n := range []uint64{h, uint64((pass + r) % (int(h) + 1))} {
+							want := built[n].b
+							blk, err := bc.BlockByNumber(n)
+							if err != nil || !equal(want.Block, blk) {
+								report("BlockByNumber", "value", fmt.Sprintf("height %d is visible but block %d reads as err=%v equal=%v", h, n, err, err == nil))
+								return
+							}
+							su, err := bc.StateUpdateByNumber(n)
+							if err != nil || !equal(want.Update, su) {
+								report("StateUpdateByNumber", "value", fmt.Sprintf("height %d is visible but state update %d reads as err=%v", h, n, err))
+								return
+							}
+							cm, err := bc.BlockCommitmentsByNumber(n)
+							if err != nil || !equal(want.Commitments, cm) {
+								report("BlockCommitmentsByNumber", "value", fmt.Sprintf("height %d visible, commitments %d: err=%v", h, n, err))
+								return
+							}
+							for i, tx := range want.Block.Transactions {
+								got, err := bc.TransactionByHash(tx.Hash())
+								if err != nil || !equal(tx, got) {
+									report("TransactionByHash", "value", fmt.Sprintf("height %d visible, tx %d of block %d: err=%v", h, i, n, err))
+									return
+								}
+								rc, _, bn, err := bc.Receipt(tx.Hash())
+								if err != nil || bn != n || !equal(want.Block.Receipts[i], rc) {
+									report("Receipt", "value", fmt.Sprintf("height %d visible, receipt %d of block %d: err=%v block=%d", h, i, n, err, bn))
+									return
+								}
+							}
+							reads.Add(int64(3 + 2*len(want.Block.Transactions)))
+						}
+						head, err := bc.Head()
+						if err != nil || head.Number < h || int(head.Number) >= len(built) || !equal(built[head.Number].b.Block, head) {
+							report("Head", "value", fmt.Sprintf("height %d visible, Head: err=%v", h, err))
+							return
+						}
+					}
+					if final {
+						if err != nil || int(h) != len(built)-1 {
+							report("Height", "value", fmt.Sprintf("after the writer finished the height is %d (%v), stored %d blocks", h, err, len(built)))
+						}
+						return
+					}
+				}
+			}(r)
+		}
+		func() {
+			defer stop.Store(true)
+			defer func() {
+				if p := recover(); p != nil {
+					report("crash", "writer", fmt.Sprintf("writer panicked: %v\n%s", p, debug.Stack()))
+				}
+			}()
+			for n, st := range built {
+				if err := node.StoreBuilt(st.b); err != nil {
+					report("Store", "store-failed", fmt.Sprintf("block %d: %v", n, err))
+					return
+				}
+			}
+		}()
+		done := make(chan struct{})
+		go func() { wg.Wait(); close(done) }()
+		select {
+		case <-done:
+		case <-time.After(hangAfter):
+			report("hang", "readers", "readers did not finish")
+			_ = out.Write()
+			os.Exit(1)
+		}
+		total += int(reads.Load())
+		if c, ok := store.(interface{ Close() error }); ok {
+			_ = c.Close()
+		}
+	}
+	out.Count("concurrent_reads_compared", total)
+	return total
 }
